@@ -83,6 +83,7 @@ type VC struct {
 	nowLast *Term
 	failed  string // unsupported reason
 	internalSeen map[string]int // internal clause name -> number of exits it was checked at
+	atCallSeen   map[string]int // atcall clause name -> number of call sites it was checked at
 	tagNames   []string // parallel to assumes: name of the loop invariant an 'I' assumption comes from
 	tagName    string
 	curHasUses bool
